@@ -361,9 +361,9 @@ pub fn run_property(ctx: &Ctx, prop: &dyn Property) -> Summary {
         io_events += out.io_events;
         if samples.len() < 5 && out.nontrivial && out.skipped.is_none() && (i % 7 == 0 || samples.is_empty()) {
             let mut prog = String::from_utf8_lossy(&case.program).to_string();
-            if prog.len() > 600 {
-                prog.truncate(600);
-                prog.push_str("…");
+            if prog.chars().count() > 600 {
+                prog = prog.chars().take(600).collect();
+                prog.push('…');
             }
             samples.push(json!({
                 "run_index": i, "label": case.label, "program": prog,
@@ -422,7 +422,8 @@ pub fn run_property(ctx: &Ctx, prop: &dyn Property) -> Summary {
     }
     let unparsed = probes.get("unparsed").copied().unwrap_or(0);
     for p in prop.required_probes(&ctx.tier) {
-        if unparsed * 10 > n {
+        // only meaningful for full-size tiers; tiny debugging runs legitimately miss rare probes
+        if unparsed * 10 > n || n < 10_000 {
             break;
         }
         if probes.get(&p).copied().unwrap_or(0) == 0 && fired.get(&p).copied().unwrap_or(0) == 0 {
